@@ -76,7 +76,7 @@ def run(chk, tier, seed):
     except OSError:
         pass
     mtrace = os.path.join(wd, "mutex.ndjson")
-    p = subprocess.run([exe, "mutex", "6" if tier == "quick" else "30", mtrace], capture_output=True, text=True, timeout=600)
+    p = subprocess.run([exe, "mutex", "6" if tier == "quick" else "30", mtrace], capture_output=True, text=True, timeout=900)
     if p.returncode != 0 or not os.path.exists(mtrace):
         chk.violation("mutex:crash", "the lock-protocol scenario died (rc=%s): %s" % (p.returncode, p.stderr[-1500:]), dict(kind="mutex"))
     else:
